@@ -172,6 +172,11 @@ func runC06(c *Ctx) {
 
 	// ---- R-C06-FASTPATH
 	fastPathRule(c, "R-C06-FASTPATH")
+	// "the item fits in the remaining capacity" includes cost == MaxCost: the oversize refusal is strict
+	importRulesWhere(c, runC03, map[string]string{"R-C03-ROOM": "R-C06-FASTPATH"}, func(o *Obligation) bool {
+		return o.Construct == "defaultPolicy.Add#oversize" || o.Construct == "sampledLFU.roomLeft"
+	})
+	entryRule(c, "R-C06-SYNCUPDATE") // the overwrite that is visible at once carries the new value AND the new expiration of the same item
 	// "fits in the remaining capacity" is only meaningful if the accounted cost is exact
 	accountingInvRule(c, "R-C06-ACCOUNT")
 
